@@ -36,7 +36,8 @@ def _mk(prog, stratum, rng, **kw):
 def build(rng, stratum):
     types = gen.Types(rng)
     prog = []
-    ncell = 1 if stratum != "multi_cell" else rng.randint(2, 3)
+    ncell = 1 if stratum not in ("multi_cell", "multi_cell_same_enable") else rng.randint(2, 3)
+    shared = None   # multi_cell_same_enable: every cell is gated by the textually same condition
     edges = {}
     k = 0
     for ci in range(ncell):
@@ -46,9 +47,13 @@ def build(rng, stratum):
         prog.append(["input", d, types.fresh(), gen.rand_value(rng, True)])
         edges[d] = [0, 1, -1, 5, -7, 100, 2147483647, -2147483648]
         thr = rng.randint(-2, 6)
+        if stratum == "multi_cell_same_enable" and shared is not None:
+            thr = shared[1]
         if stratum == "shared_input":
             en_in = d
             edges[d] = list(range(thr - 2, thr + 3)) + [50, -50]
+        elif stratum == "multi_cell_same_enable" and shared is not None:
+            en_in = shared[0]
         else:
             prog.append(["input", e, types.fresh(), rng.randint(0, 1)])
             en_in = e
@@ -68,8 +73,13 @@ def build(rng, stratum):
         eform = rng.choice(["cmp", "cmp", "sig", "arith"]) if stratum != "enable_shared" else "named"
         if stratum == "shared_input":
             eform = "cmp"
+        if stratum == "multi_cell_same_enable":
+            if shared is None:
+                eform = rng.choice(["cmp", "cmp", "sig", "arith"])
+                shared = (en_in, thr, eform, rng.choice(CMP_OPS))
+            eform = shared[2]
         if eform == "cmp":
-            en = ["c", rng.choice(CMP_OPS), ["v", en_in], ["n", thr]]
+            en = ["c", shared[3] if shared else rng.choice(CMP_OPS), ["v", en_in], ["n", thr]]
         elif eform == "sig":
             en = ["v", en_in]
             edges[en_in] = [0, 1, 1, 0, 2, 7]
@@ -105,7 +115,7 @@ def gen_cases(tier, seed):
     n = 160 if tier == "quick" else 1500
     nhist = 3 if tier == "quick" else 8
     rng = random.Random(3000017 * seed + 5)
-    strata = ["basic"] * 5 + ["shared_input"] * 2 + ["enable_shared"] * 1 + ["multi_cell"] * 2
+    strata = ["basic"] * 5 + ["shared_input"] * 2 + ["enable_shared"] * 1 + ["multi_cell"] * 2 + ["multi_cell_same_enable"] * 2
     cases = []
     for i in range(n):
         st = rng.choice(strata)
